@@ -97,8 +97,10 @@ static void op_toom3_points(int argc, char **argv)
   cap_on = 1; cap_depth = 0; cap_n = 0;
   mpn_toom3_mul_n(cp, ap, bp, n, tp);          /* wrapped: depth becomes 1 inside */
   cap_on = 0;
-  outl(cap_n);
-  for (int i = 0; i < cap_n; i++) { out_zv(cap_x[i]); out_zv(cap_y[i]); mpz_clear(cap_x[i]); mpz_clear(cap_y[i]); }
+  /* when the recursion goes through a call inside the routine's own file (Toom-3 calling itself: other tuning tables), link-time
+     wrapping cannot see the five products: print count 0 and only the product */
+  outl(cap_n == 5 ? 5 : 0);
+  for (int i = 0; i < cap_n; i++) { if (cap_n == 5) { out_zv(cap_x[i]); out_zv(cap_y[i]); } mpz_clear(cap_x[i]); mpz_clear(cap_y[i]); }
   out_limbs(cp, 2 * n);
   if (!gbuf_ok(ap, n) || !gbuf_ok(bp, n) || !gbuf_ok(cp, 2 * n) || !gbuf_ok(tp, 4 * n + 300)) outs("REDZONE");
   gbuf_free(ap); gbuf_free(bp); gbuf_free(cp); gbuf_free(tp);
@@ -125,8 +127,8 @@ static void op_toom4_points(int argc, char **argv)
   cap_on = 1; cap_depth = 0; cap_n = 0;
   mpn_toom4_mul_n(cp, ap, bp, n);
   cap_on = 0;
-  outl(cap_n);
-  for (int i = 0; i < cap_n; i++) { out_zv(cap_x[i]); out_zv(cap_y[i]); mpz_clear(cap_x[i]); mpz_clear(cap_y[i]); }
+  outl(cap_n == 7 ? 7 : 0);
+  for (int i = 0; i < cap_n; i++) { if (cap_n == 7) { out_zv(cap_x[i]); out_zv(cap_y[i]); } mpz_clear(cap_x[i]); mpz_clear(cap_y[i]); }
   out_limbs(cp, 2 * n);
   if (!gbuf_ok(ap, n) || !gbuf_ok(bp, n) || !gbuf_ok(cp, 2 * n)) outs("REDZONE");
   gbuf_free(ap); gbuf_free(bp); gbuf_free(cp);
